@@ -51,28 +51,30 @@ def targets(N):
 
 
 def compile_cases(ck, quick):
-    """(N,k,target) cases: exhaustive N<=4 (quick) / N<=5 (thorough), sampled above"""
+    """(N,k,target) cases: exhaustive for N<=5 (every k); above that the three routing classes of compile()
+    (left block identity / right block identity / neither) are sampled separately, and the identity-left class
+    of (6,2) and (6,3) is enumerated (it is the one served by the bounded fallback search)"""
     cases = []
-    for N in (3, 4):
+    for N in (3, 4, 5):
         for k in range(2, N):
-            cases += [{"op": "compile", "N": N, "k": k, "target": t} for t in targets(N)]
-    if quick:
-        T5 = targets(5)
-        for k in (2, 3, 4):
-            cases += [{"op": "compile", "N": 5, "k": k, "target": t} for t in ck.rng.sample(T5, 120)]
-        for N in (6, 7):
-            for _ in range(20):
+            cases += [{"op": "compile", "N": N, "k": k, "target": t, "enumerated": True} for t in targets(N)]
+    def rand_target(N, k, cls):
+        L = "".join(ck.rng.choice("IXYZ") for _ in range(k))
+        R = "".join(ck.rng.choice("IXYZ") for _ in range(N - k))
+        if cls == "left-identity":
+            L = "I" * k
+        elif cls == "right-identity":
+            R = "I" * (N - k)
+        return L + R
+    for k in (2, 3):
+        cases += [{"op": "compile", "N": 6, "k": k, "target": "I" * k + r, "enumerated": True} for r in targets(6 - k)]
+    Ns = (6, 7) if quick else (6, 7, 8)
+    per = 12 if quick else 60
+    for N in Ns:
+        for cls in ("left-identity", "right-identity", "generic"):
+            for _ in range(per):
                 k = ck.rng.randint(2, N - 1)
-                t = "".join(ck.rng.choice("IXYZ") for _ in range(N))
-                if set(t) != {"I"}:
-                    cases.append({"op": "compile", "N": N, "k": k, "target": t})
-    else:
-        for k in (2, 3, 4):
-            cases += [{"op": "compile", "N": 5, "k": k, "target": t} for t in targets(5)]
-        for N in (6, 7, 8):
-            for _ in range(150):
-                k = ck.rng.randint(2, N - 1)
-                t = "".join(ck.rng.choice("IXYZ") for _ in range(N))
+                t = rand_target(N, k, cls)
                 if set(t) != {"I"}:
                     cases.append({"op": "compile", "N": N, "k": k, "target": t})
     return cases
